@@ -100,6 +100,10 @@ func program(c Cell, l Layout) *progen.Spec {
 		add(progen.Node{Op: "cogroup", In: []int{last, last}})
 	case "reshard":
 		add(progen.Node{Op: "reshard", In: []int{last}, N: c.NShard})
+	case "reshard2":
+		// to another shard count and back to the original one: the second Reshard must still redistribute
+		add(progen.Node{Op: "reshard", In: []int{last}, N: c.NShard + 1})
+		add(progen.Node{Op: "reshard", In: []int{last}, N: c.NShard})
 	case "repartition":
 		add(progen.Node{Op: "repartition", In: []int{last}, Fn: &progen.Fn{Kind: c.PartKind, M: 2}})
 	}
@@ -250,7 +254,7 @@ func checkPair(sessions map[string]*runner.Session, p Pair) error {
 	return sameMap(m1, m2, fmt.Sprintf("when produced as %+v instead of %+v", p.L2, p.L1))
 }
 
-var ops = []string{"reshuffle", "reduce", "fold", "cogroup", "reshard", "repartition"}
+var ops = []string{"reshuffle", "reduce", "fold", "cogroup", "reshard", "reshard2", "repartition"}
 
 func genLayout(t *rapid.T, cfgs []runner.Config) Layout {
 	return Layout{
@@ -353,6 +357,22 @@ func exhaustiveCells() []Cell {
 			}
 		}
 	}
+	// every keyable column type (strings, byte slices, floats, ...): a few dozen keys each; these cells are
+	// about the hash of the type being the same in every process
+	for col := 0; col < vgen.NumKeyable; col++ {
+		var keys [][]int
+		seen := map[string]bool{}
+		for k := 0; k < 48; k++ {
+			v := progen.RowKey(progen.Row{vgen.Universe[col].Val(k)})
+			if !seen[v] {
+				seen[v] = true
+				keys = append(keys, []int{k})
+			}
+		}
+		for _, ns := range []int{3, 8} {
+			cells = append(cells, Cell{KeyCols: []progen.Col{col}, Keys: keys, NShard: ns, Op: "reshuffle"})
+		}
+	}
 	return cells
 }
 
@@ -392,7 +412,7 @@ func TestVerifC05Exhaustive(t *testing.T) {
 		t.Skip()
 	}
 	rec := vt.New("C05", "exhaustive-small-keys",
-		"complete enumeration: every value of the 8-bit key types (uint8, int8; all 256 values) and, in the thorough tier, of the 16-bit key types (uint16, int16; all 65,536 values) x shard counts {2,3,7,8} x {Reshuffle, Reduce}; each cell is run with 3 producers holding every key twice in different orders on the local executor, again with another layout on the bigmachine test system, and in a separately started OS process; oracle: equal keys in one shard and the three key->shard maps identical; evaluations = cells x layouts; distinct by (key type, shard count, operator, layout)")
+		"complete enumeration: up to 48 keys of every one of the 13 keyable column types (shard counts {3,8}, Reshuffle), every value of the 8-bit key types (uint8, int8; all 256 values) and, in the thorough tier, of the 16-bit key types (uint16, int16; all 65,536 values) x shard counts {2,3,7,8} x {Reshuffle, Reduce}; each cell is run with 3 producers holding every key twice in different orders on the local executor, again with another layout on the bigmachine test system, and in a separately started OS process; oracle: equal keys in one shard and the three key->shard maps identical; evaluations = cells x layouts; distinct by (key type, shard count, operator, layout)")
 	if _, only := vt.Replays(tExhaustive); only {
 		return
 	}
@@ -449,22 +469,22 @@ func TestVerifC05Exhaustive(t *testing.T) {
 			}
 		}
 		m1, _, _, err := placement(sessions, c, l1)
-		rec.Case(true, vt.Hash(fmt.Sprint(c.KeyCols, c.NShard, c.Op), "local"), fmt.Sprintf("keys:%d", c.AllOf))
+		rec.Case(true, vt.Hash(fmt.Sprint(c.KeyCols, c.NShard, c.Op), "local"), fmt.Sprintf("keys:%d", len(c.keys())))
 		if err != nil {
 			report(err)
 			continue
 		}
 		m2, _, _, err := placement(sessions, c, l2)
-		rec.Case(true, vt.Hash(fmt.Sprint(c.KeyCols, c.NShard, c.Op), "bigmachine"), fmt.Sprintf("keys:%d", c.AllOf))
+		rec.Case(true, vt.Hash(fmt.Sprint(c.KeyCols, c.NShard, c.Op), "bigmachine"), fmt.Sprintf("keys:%d", len(c.keys())))
 		if err != nil {
 			report(err)
 			continue
 		}
 		report(sameMap(m1, m2, "on the bigmachine executor with another layout"))
-		rec.Case(true, vt.Hash(fmt.Sprint(c.KeyCols, c.NShard, c.Op), "process"), fmt.Sprintf("keys:%d", c.AllOf))
+		rec.Case(true, vt.Hash(fmt.Sprint(c.KeyCols, c.NShard, c.Op), "process"), fmt.Sprintf("keys:%d", len(c.keys())))
 		report(sameMap(m1, theirs[i], "in a separately started process"))
 		if rec.WantSample("cell") {
-			rec.Sample("cell", map[string]interface{}{"key_type": progen.ColName(c.KeyCols[0]), "keys": c.AllOf, "nshard": c.NShard, "op": c.Op, "shard_of_first_keys": firstFew(m1)})
+			rec.Sample("cell", map[string]interface{}{"key_type": progen.ColName(c.KeyCols[0]), "keys": len(c.keys()), "nshard": c.NShard, "op": c.Op, "shard_of_first_keys": firstFew(m1)})
 		}
 	}
 	rec.Exhaustive = true
